@@ -250,9 +250,15 @@ def oracle(spec, outcomes, model: Model, drv: Driver, shut, quiescent, classes,
                 return 'parentless-point-after-unspawned-parented-point'
             # 2. only absolute parents at/after the start point plus a
             # pre-initial (ignored) regular one; not the first instance
-            if (model.parentless(t, p) and later
+            # (the first instance is spawned by the absolute output as its
+            # first child - unless that output never completes, while the
+            # prerequisite is true through the pre-initial atom)
+            if (model.parentless(t, p)
                     and any(a.get('abs') is not None for a in atoms)
-                    and any(a.get('abs') is None for a in atoms)):
+                    and any(a.get('abs') is None for a in atoms)
+                    and (later or not any(
+                        atom_hit(a, p, done_k)[1] for a in atoms
+                        if a.get('abs') is not None))):
                 return 'absolute-plus-preinitial-parents-not-first-child'
             # 3. not parentless (regular parents at/after the start point);
             # prerequisite true through a completed absolute trigger while
